@@ -144,7 +144,8 @@ let () =
         Printf.printf "hist %d line %d nev %d acc %s m:c13 %d %d m:c14 %d %d f:refused 0\n" i h.h_line nev
           (match acc with None -> "ok" | Some (k, c) -> Printf.sprintf "div %d %s" k c)
           (if c13 then 1 else 0) f13 (if c14 then 1 else 0) f14;
-        if coq_out <> None && List.length !coq_cases < coq_max then
+        (* very long endpoint lists are left to the extracted driver: as Coq source they take minutes to parse *)
+        if coq_out <> None && List.length !coq_cases < coq_max && List.length h.h_ids <= 40 then
           coq_cases := (h, o0, acc = None, c13, c14) :: !coq_cases
   ) hs;
   match coq_out with
